@@ -259,7 +259,7 @@ def run(ctx, chk):
                     base = cnt
                     if isinstance(cnt, tuple) and cnt[0] == "op" and cnt[1] in ("mul", "shl"):
                         base = cnt[3] if not P.is_const(cnt[3]) else cnt[4]
-                    ok = pa.st.lo.get(base, 0) >= 1
+                    ok = pa.st.known_positive(base)
                     chk.ob("C01.frame-invariants", "%s: a definite frame is pushed only with a positive count" % fn_, ok, e.ins.loc(), fn=fn_,
                            key="pushpos:%s" % fn_, detail="" if ok else "count %s not known to be positive" % DR.fmt_term(cnt))
     uc = prog.fn("_cbor_unicode_codepoint_count")
